@@ -1,1 +1,130 @@
-From Eval Require Import Model.
+(* C11 - supporting proofs, split over three files:
+   LemmasRoots.v (Roots(): termination, completeness, cycles, topological order),
+   LemmasRun.v   (RunDSL(): shape of the callback trace, error handling),
+   LemmasSets.v  (sets that grow while executing: late roots, appended expressions). *)
+From Eval Require Export Model LemmasRoots LemmasRun LemmasSets.
+From Coq Require Import List Bool Arith Lia Permutation Sorted.
+Import ListNotations.
+
+(* ------------------------------------------------------------ statements used by Properties.v *)
+
+Lemma depth_fuel_sufficient_l n df root :
+  (forall x d, In d (df x) -> d < n) -> root < n ->
+  exists s, sort_deps (depth_fuel n) df root = Some s.
+Proof.
+  intros H Hr. unfold depth_fuel.
+  replace (S (S (2 * n))) with (S (S (2 * length (seq 0 n)))) by (now rewrite seq_length).
+  apply sort_deps_fuel.
+  - intros x d Hd. apply in_seq. specialize (H x d Hd). lia.
+  - apply in_seq. lia.
+Qed.
+
+Definition closed_under (deps : nat -> list nat) (regs : list nat) : Prop :=
+  forall r d, In r regs -> In d (deps r) -> In d regs.
+
+Definition cyclic (deps : nat -> list nat) (regs : list nat) : Prop :=
+  (exists r, In r regs /\ In r (deps r)) \/
+  (exists u v, In u regs /\ In v regs /\ u <> v /\ reach deps u v /\ reach deps v u).
+
+(* v strictly before u in l *)
+Definition before (l : list nat) (v u : nat) : Prop :=
+  forall l1 l2, l = l1 ++ u :: l2 -> In v l1.
+
+Lemma reach_closed deps regs a b : closed_under deps regs -> In a regs -> reach deps a b -> In b regs.
+Proof. intros C Ha H. induction H as [x|x d y Hd _ IH]; [assumption|]. apply IH. eapply C; eauto. Qed.
+
+Lemma roots_topological_l n deps regs :
+  (forall x d, In d (deps x) -> d < n) -> (forall r, In r regs -> r < n) ->
+  ~ cyclic deps regs ->
+  exists l, roots n deps regs = Ok l /\ NoDup l /\ incl regs l /\
+    (forall x, In x l -> exists r, In r regs /\ reach deps r x) /\
+    (forall u v, In u regs -> reach deps u v -> u <> v -> before l v u) /\
+    (closed_under deps regs -> NoDup regs -> Permutation regs l).
+Proof.
+  intros Hd Hr Hc.
+  destruct (roots n deps regs) as [l| |] eqn:E.
+  - exists l. split; [reflexivity|].
+    destruct (roots_ok_spec n deps regs Hd Hr l E) as (A & B & C & D).
+    repeat split; try assumption.
+    intros Cl ND. apply NoDup_Permutation; try assumption. intro x. split; [apply B|].
+    intro Hx. destruct (C x Hx) as (r & Hr' & Hrx). eapply reach_closed; eauto.
+  - exfalso. apply Hc. now apply (roots_cycle_spec n deps regs Hd Hr).
+  - exfalso. now apply (roots_no_out_of_fuel n deps regs Hd Hr).
+Qed.
+
+Lemma unregistered_cycle_witness :
+  let deps := fun r => match r with 0 => [1] | 1 => [0] | _ => [] end in
+  roots 2 deps [0] = Ok [1; 0] /\ reach deps 0 1 /\ reach deps 1 0.
+Proof.
+  split; [vm_compute; reflexivity|]. split; (eapply reach_step; [cbn; left; reflexivity| apply reach_refl]).
+Qed.
+
+(* RunDSL *)
+Lemma phase_barrier_l p : StronglySorted phase_le (fst (run_dsl p)).
+Proof. exact (shape_sorted _ _ (run_shape p)). Qed.
+
+Lemma late_roots_l p rs st : exec_phase p = XDone rs st ->
+  forall q, In q (s_regs st) ->
+    In q rs /\
+    forall k e, In e (nth k (r_sets (rootdef_of p q)) []) -> e_src e = true ->
+      In (exec_ev q e) (fst (run_dsl p)).
+Proof.
+  intros H q Hq. destruct (late_roots_ran p rs st H q Hq) as [A B]. split; [assumption|].
+  intros k e He Hs. destruct (run_dsl_done p rs st H) as (t & -> & _). apply in_or_app. left. now apply (B k).
+Qed.
+
+Lemma later_appends_l p rs st : program_later_ok p = true -> exec_phase p = XDone rs st ->
+  forall q, In q rs -> exec_ids q (fst (run_dsl p)) = src_ids (sets_of st q).
+Proof.
+  intros L H q Hq. destruct (run_dsl_done p rs st H) as (t & -> & Ht).
+  rewrite exec_ids_app, (exec_ids_later q t Ht), app_nil_r. exact (later_appends_exact p L rs st H q Hq).
+Qed.
+
+Lemma exec_phase_stop_l p st o : exec_phase p = XStop st o ->
+  run_dsl p = (s_trace st, o) /\ (o = CycleErr \/ o = TooManyRoots \/ (o = Done /\ s_trace st = [])).
+Proof.
+  intro H. pose proof (exec_phase_ok p) as OK. rewrite H in OK. destruct OK as [_ S].
+  split; [unfold run_dsl; now rewrite H|]. destruct S as [[S|S]|S]; auto.
+Qed.
+
+Definition wsrc (i : nat) (acts : list action) : expr := mkE i true acts true (Some false) true.
+
+(* one root, one set: expression 1 appends expression 2 to the set being walked *)
+Definition witness_current : program :=
+  mkP [mkR [] [[wsrc 1 [AAppend 0 (wsrc 2 [])]]] true (Some false) true] [0].
+
+(* one root, two sets: expression 2 of set 1 appends expression 3 to set 0 *)
+Definition witness_earlier : program :=
+  mkP [mkR [] [[wsrc 1 []]; [wsrc 2 [AAppend 0 (wsrc 3 [])]]] true (Some false) true] [0].
+
+(* the same with the append aimed at a later set *)
+Definition witness_later : program :=
+  mkP [mkR [] [[wsrc 1 [AAppend 1 (wsrc 2 [])]]; [wsrc 3 []]] true (Some false) true] [0].
+
+(* root 0 registers root 1 whose DSL registers root 2 *)
+Definition witness_late : program :=
+  mkP [mkR [] [[wsrc 1 [ARegister 1]]] true (Some false) true;
+       mkR [0] [[wsrc 2 [ARegister 2]]] true (Some false) true;
+       mkR [1] [[wsrc 3 []]] true (Some false) true] [0].
+
+Definition not_executed_but_finalized (p : program) (i : nat) : Prop :=
+  exists rs st, exec_phase p = XDone rs st /\ In 0 rs /\
+    In i (src_ids (sets_of st 0)) /\ ~ In i (exec_ids 0 (fst (run_dsl p))) /\
+    In (Ev Prepare 0 (Some i) Call) (fst (run_dsl p)) /\
+    In (Ev Validate 0 (Some i) Call) (fst (run_dsl p)) /\
+    In (Ev Finalize 0 (Some i) Call) (fst (run_dsl p)) /\ snd (run_dsl p) = Done.
+
+Ltac isin := solve [repeat (first [left; reflexivity | right])].
+Ltac notin := let X := fresh in intro X; repeat (destruct X as [X|X]; [discriminate|]); contradiction.
+
+Lemma witness_current_l : not_executed_but_finalized witness_current 2.
+Proof.
+  eexists _, _. split; [vm_compute; reflexivity|]. vm_compute.
+  repeat split; first [isin | notin | reflexivity].
+Qed.
+
+Lemma witness_earlier_l : not_executed_but_finalized witness_earlier 3.
+Proof.
+  eexists _, _. split; [vm_compute; reflexivity|]. vm_compute.
+  repeat split; first [isin | notin | reflexivity].
+Qed.
